@@ -1,11 +1,564 @@
-//! C25 (not built yet)
-use crate::report::{Disagreement, Run};
-use serde_json::Value;
+//! C25 xlsx import never crashes: every single structural mutation (and, thorough, pairs inside three
+//! named parts) of every XML part of a set of seed packages, plus zip-level damage, is imported with
+//! `load_from_xlsx_bytes`; on Ok the workbook goes through `Model::from_workbook` and `evaluate`.
+//! Oracle: no panic, no abort, termination. Cases run in worker subprocesses (`crate::isolate`).
 
-pub fn run(run: &mut Run) {
-    run.machinery_errors.push("C25: check not built yet".into());
+use crate::isolate::{self, CaseOut, Job};
+use crate::report::{Disagreement, Run, Tier};
+use crate::xmlmut::{self, Layout, Mutation};
+use ironcalc::import::load_from_xlsx_bytes;
+use ironcalc_base::Model;
+use serde_json::{json, Value};
+use std::collections::BTreeMap;
+
+pub const WATCHDOG_S: f64 = 30.0;
+
+const QUICK_FILES: [&str; 6] = [
+    "openpyxl_example.xlsx",
+    "libreoffice_888_example.xlsx",
+    "missing_r_on_row.xlsx",
+    "shared_formula_volatile.xlsx",
+    "dynamic_arrays.xlsx",
+    "docs/CHOOSE.xlsx",
+];
+
+const THOROUGH_FILES: [&str; 24] = [
+    "optional_xf_id.xlsx",
+    "freeze.xlsx",
+    "calc_test_no_export/tables.xlsx",
+    "link_test.xlsx",
+    "conditional_formatting/cf_tests.xlsx",
+    "split.xlsx",
+    "NoGrid.xlsx",
+    "basic_text.xlsx",
+    "DynamicArrays.xlsx",
+    "gridlines_issue_1269.xlsx",
+    "custom_theme_colors.xlsx",
+    "crossword_ranges.xlsx",
+    "docs/DATE.xlsx",
+    "docs/SIN.xlsx",
+    "templates/crossword.xlsx",
+    "templates/invoice.xlsx",
+    "calc_tests/LOOKUP_AND_REFERENCE/XMATCH_arrays.xlsx",
+    "calc_tests/FINANCIAL/ACCRINTM.xlsx",
+    "calc_tests/array_in_scalar_repro.xlsx",
+    "calc_tests/escape_strings.xlsx",
+    "calc_tests/defined_names_for_unit_test.xlsx",
+    "calc_tests/LOGICAL/LET.xlsx",
+    "calc_tests/quotes.xlsx",
+    "calc_tests/simple_arrays.xlsx",
+];
+
+/// Parts of the exported seeds whose mutation pairs are enumerated in the thorough tier.
+const PAIR_PARTS: [&str; 3] = ["xl/worksheets/sheet1.xml", "xl/workbook.xml", "xl/styles.xml"];
+const PAIR_PKGS: [&str; 3] = ["export:basic", "feature:cf", "feature:structure"];
+
+fn tests_dir() -> String {
+    std::env::var("VERIF_XLSX_TESTS").unwrap_or_else(|_| "/repo/xlsx/tests".to_string())
 }
 
-pub fn replay(_case: &Value) -> Vec<Disagreement> {
-    vec![]
+pub struct Part {
+    pub member: usize,
+    pub layout: Layout,
+    pub muts: Vec<Mutation>,
+    /// subset of `muts` used for pairs
+    pub pair_muts: Vec<usize>,
+}
+
+pub struct Pkg {
+    pub name: String,
+    pub raw: Vec<u8>,
+    pub members: Vec<(String, Vec<u8>)>,
+    pub parts: Vec<Part>,
+    /// start of the central directory in `raw`
+    pub cd_start: usize,
+}
+
+fn looks_like_xml(b: &[u8]) -> bool {
+    let mut i = 0;
+    if b.starts_with(&[0xEF, 0xBB, 0xBF]) {
+        i = 3;
+    }
+    while i < b.len() && b[i].is_ascii_whitespace() {
+        i += 1;
+    }
+    i < b.len() && b[i] == b'<'
+}
+
+fn pair_ok(m: &Mutation) -> bool {
+    match m {
+        Mutation::DelElem(_) | Mutation::DelChildren(_) | Mutation::DupElem(_) | Mutation::DelAttr(..) => true,
+        Mutation::SetAttr(_, _, k) => matches!(xmlmut::ATTR_VALUES[*k], "" | "-1" | "x"),
+        _ => false,
+    }
+}
+
+pub fn package_bytes(name: &str) -> Result<Vec<u8>, String> {
+    if let Some(seed) = name.strip_prefix("export:") {
+        let um = crate::seeds::load(crate::hist::seed_name(seed));
+        crate::xlsxutil::export_bytes(um.get_model())
+    } else if let Some(f) = name.strip_prefix("feature:") {
+        let um = crate::xfeat::feature_model(f);
+        crate::xlsxutil::export_bytes(um.get_model())
+    } else if let Some(f) = name.strip_prefix("file:") {
+        std::fs::read(format!("{}/{}", tests_dir(), f)).map_err(|e| format!("cannot read {}: {}", f, e))
+    } else {
+        Err(format!("unknown package {}", name))
+    }
+}
+
+pub fn load_pkg(name: &str) -> Result<Pkg, String> {
+    let raw = package_bytes(name)?;
+    let members = crate::xlsxutil::unpack(&raw)?;
+    let mut parts = vec![];
+    for (i, (_, b)) in members.iter().enumerate() {
+        if looks_like_xml(b) {
+            let layout = xmlmut::layout(b);
+            let muts = xmlmut::all_mutations(&layout);
+            let pair_muts = muts
+                .iter()
+                .enumerate()
+                .filter(|(_, m)| pair_ok(m))
+                .map(|(k, _)| k)
+                .collect();
+            parts.push(Part {
+                member: i,
+                layout,
+                muts,
+                pair_muts,
+            });
+        }
+    }
+    // end-of-central-directory record: last "PK\5\6"
+    let mut cd_start = raw.len();
+    if raw.len() >= 22 {
+        for i in (0..=raw.len() - 22).rev() {
+            if raw[i..].starts_with(b"PK\x05\x06") {
+                let off = u32::from_le_bytes([raw[i + 16], raw[i + 17], raw[i + 18], raw[i + 19]]) as usize;
+                cd_start = off.min(raw.len());
+                break;
+            }
+        }
+    }
+    Ok(Pkg {
+        name: name.to_string(),
+        raw,
+        members,
+        parts,
+        cd_start,
+    })
+}
+
+#[derive(Clone, Copy, PartialEq, Debug)]
+enum SegKind {
+    /// single mutations of a part, then remove-part, then replace-part
+    Part(usize),
+    ZipTruncate,
+    ZipDirByte,
+    /// pairs (i<j) over `pair_muts` of a part
+    Pairs(usize),
+}
+
+struct Segment {
+    pkg: usize,
+    kind: SegKind,
+    start: usize,
+    count: usize,
+}
+
+pub struct C25Job {
+    pkgs: Vec<Pkg>,
+    segs: Vec<Segment>,
+    total: usize,
+    pub load_errors: Vec<String>,
+}
+
+pub fn package_names(tier: Tier) -> Vec<String> {
+    let mut v: Vec<String> = crate::seeds::SEEDS.iter().map(|s| format!("export:{}", s)).collect();
+    v.extend(crate::xfeat::FEATURES.iter().map(|s| format!("feature:{}", s)));
+    v.extend(QUICK_FILES.iter().map(|s| format!("file:{}", s)));
+    if tier.thorough() {
+        v.extend(THOROUGH_FILES.iter().map(|s| format!("file:{}", s)));
+    }
+    v
+}
+
+impl C25Job {
+    pub fn new(tier: Tier) -> C25Job {
+        let mut pkgs = vec![];
+        let mut load_errors = vec![];
+        for n in package_names(tier) {
+            match load_pkg(&n) {
+                Ok(p) => pkgs.push(p),
+                Err(e) => load_errors.push(format!("package {}: {}", n, e)),
+            }
+        }
+        let mut segs = vec![];
+        let mut total = 0usize;
+        let mut push = |segs: &mut Vec<Segment>, pkg: usize, kind: SegKind, count: usize| {
+            if count > 0 {
+                segs.push(Segment {
+                    pkg,
+                    kind,
+                    start: total,
+                    count,
+                });
+                total += count;
+            }
+        };
+        for (pi, p) in pkgs.iter().enumerate() {
+            for (k, part) in p.parts.iter().enumerate() {
+                push(&mut segs, pi, SegKind::Part(k), part.muts.len() + 2);
+            }
+            push(&mut segs, pi, SegKind::ZipTruncate, p.raw.len().div_ceil(64));
+            push(&mut segs, pi, SegKind::ZipDirByte, 2 * (p.raw.len() - p.cd_start));
+        }
+        if tier.thorough() {
+            for (pi, p) in pkgs.iter().enumerate() {
+                if !PAIR_PKGS.contains(&p.name.as_str()) {
+                    continue;
+                }
+                for (k, part) in p.parts.iter().enumerate() {
+                    if PAIR_PARTS.contains(&p.members[part.member].0.as_str()) {
+                        let n = part.pair_muts.len();
+                        push(&mut segs, pi, SegKind::Pairs(k), n * n.saturating_sub(1) / 2);
+                    }
+                }
+            }
+        }
+        C25Job {
+            pkgs,
+            segs,
+            total,
+            load_errors,
+        }
+    }
+
+    fn locate(&self, idx: usize) -> Option<(&Segment, usize)> {
+        let k = self.segs.partition_point(|s| s.start + s.count <= idx);
+        let s = self.segs.get(k)?;
+        Some((s, idx - s.start))
+    }
+
+    fn pkg_by_name(&self, name: &str) -> Option<&Pkg> {
+        self.pkgs.iter().find(|p| p.name == name)
+    }
+
+    pub fn stats(&self) -> Value {
+        let mut per_kind: BTreeMap<String, u64> = BTreeMap::new();
+        let mut elements = 0usize;
+        let mut attrs = 0usize;
+        let mut parts = 0usize;
+        for p in &self.pkgs {
+            for part in &p.parts {
+                parts += 1;
+                elements += part.layout.elements.len();
+                attrs += part.layout.elements.iter().map(|e| e.attrs.len()).sum::<usize>();
+                for m in &part.muts {
+                    *per_kind.entry(m.kind().to_string()).or_default() += 1;
+                }
+                *per_kind.entry("remove-part".into()).or_default() += 1;
+                *per_kind.entry("replace-part".into()).or_default() += 1;
+            }
+        }
+        for s in &self.segs {
+            match s.kind {
+                SegKind::ZipTruncate => *per_kind.entry("zip-truncate".into()).or_default() += s.count as u64,
+                SegKind::ZipDirByte => *per_kind.entry("zip-dir-byte".into()).or_default() += s.count as u64,
+                SegKind::Pairs(_) => *per_kind.entry("pair".into()).or_default() += s.count as u64,
+                _ => {}
+            }
+        }
+        let mut per_pkg: BTreeMap<String, u64> = BTreeMap::new();
+        for s in &self.segs {
+            *per_pkg.entry(self.pkgs[s.pkg].name.clone()).or_default() += s.count as u64;
+        }
+        json!({"packages": self.pkgs.iter().map(|p| p.name.clone()).collect::<Vec<_>>(), "cases_per_package": per_pkg, "xml_parts": parts,
+            "elements": elements, "attributes": attrs, "cases_by_mutation_kind": per_kind})
+    }
+}
+
+/// (i, j) with i < j of the k-th pair in lexicographic order over n items.
+fn unrank_pair(n: usize, mut k: usize) -> (usize, usize) {
+    let mut i = 0;
+    loop {
+        let row = n - 1 - i;
+        if k < row {
+            return (i, i + 1 + k);
+        }
+        k -= row;
+        i += 1;
+    }
+}
+
+fn fnv64(s: &str) -> u64 {
+    let mut h: u64 = 0xcbf29ce484222325;
+    for b in s.bytes() {
+        h ^= b as u64;
+        h = h.wrapping_mul(0x100000001b3);
+    }
+    h
+}
+
+/// The oracle: import, build the model, evaluate. Returns (disagreements, outcome text, calls).
+pub fn import_oracle(bytes: &[u8], case: &Value, what: &str, stage: &mut dyn FnMut(&str)) -> (Vec<Disagreement>, String, u64) {
+    let mut ds = vec![];
+    let mut calls = 1;
+    let mk = |at: &str, entry: &str, p: &str| Disagreement {
+        sig: format!("panic {}", at),
+        case: case.clone(),
+        detail: format!("{} panicked: {}\nmutation: {}", entry, p, what),
+    };
+    stage("load_from_xlsx_bytes");
+    let outcome = match crate::env::guarded(|| load_from_xlsx_bytes(bytes, "imported", "en", "UTC")) {
+        Err(p) => {
+            ds.push(mk(&isolate::panic_sig(&p), "load_from_xlsx_bytes", &p));
+            "panic".to_string()
+        }
+        Ok(Err(e)) => {
+            let t: String = format!("{:?}", e).chars().filter(|c| !c.is_ascii_digit()).take(48).collect();
+            format!("err {}", t)
+        }
+        Ok(Ok(wb)) => {
+            let sheets = wb.worksheets.len();
+            let cells: usize = wb
+                .worksheets
+                .iter()
+                .map(|w| w.sheet_data.values().map(|r| r.len()).sum::<usize>())
+                .sum();
+            calls += 1;
+            stage("Model::from_workbook");
+            match crate::env::guarded(|| Model::from_workbook(wb, "en")) {
+                Err(p) => {
+                    ds.push(mk(&isolate::panic_sig(&p), "Model::from_workbook (after a successful import)", &p));
+                    "panic".to_string()
+                }
+                Ok(Err(_)) => format!("ok-import sheets={} cells={} model-err", sheets, cells),
+                Ok(Ok(mut m)) => {
+                    calls += 1;
+                    stage("Model::evaluate");
+                    match crate::env::guarded(|| m.evaluate()) {
+                        Err(p) => {
+                            ds.push(mk(&isolate::panic_sig(&p), "Model::evaluate (after a successful import)", &p));
+                            "panic".to_string()
+                        }
+                        Ok(()) => format!("ok sheets={} cells={}", sheets, cells),
+                    }
+                }
+            }
+        }
+    };
+    (ds, outcome, calls)
+}
+
+impl C25Job {
+    /// Builds the mutated package of a case: (bytes, description, well-formed-and-changed).
+    fn build(&self, case: &Value) -> Result<(Vec<u8>, String, bool), String> {
+        let name = case["pkg"].as_str().ok_or("case without pkg")?;
+        let owned;
+        let pkg = match self.pkg_by_name(name) {
+            Some(p) => p,
+            None => {
+                owned = load_pkg(name)?;
+                &owned
+            }
+        };
+        if let Some(off) = case["zip-truncate"].as_u64() {
+            let off = (off as usize).min(pkg.raw.len());
+            let b = pkg.raw[..off].to_vec();
+            let opens = zip::ZipArchive::new(std::io::Cursor::new(&b[..])).is_ok();
+            return Ok((b, format!("archive truncated to {} of {} bytes", off, pkg.raw.len()), opens));
+        }
+        if case["zip-byte"].is_object() {
+            let off = case["zip-byte"]["offset"].as_u64().unwrap_or(0) as usize;
+            let val = case["zip-byte"]["value"].as_u64().unwrap_or(0) as u8;
+            let mut b = pkg.raw.clone();
+            if off < b.len() {
+                b[off] = val;
+            }
+            let changed = b != pkg.raw;
+            let opens = changed && zip::ZipArchive::new(std::io::Cursor::new(&b[..])).is_ok();
+            return Ok((
+                b,
+                format!("central-directory byte at offset {} of {} set to {:#04x}", off, pkg.raw.len(), val),
+                opens,
+            ));
+        }
+        let part_name = case["part"].as_str().ok_or("case without part")?;
+        let part = pkg
+            .parts
+            .iter()
+            .find(|p| pkg.members[p.member].0 == part_name)
+            .ok_or_else(|| format!("no XML part {} in {}", part_name, name))?;
+        let orig = &pkg.members[part.member].1;
+        let mut members = pkg.members.clone();
+        let (desc, nontrivial);
+        if case["remove"].as_bool() == Some(true) {
+            members.remove(part.member);
+            desc = format!("part {} removed", part_name);
+            nontrivial = true;
+        } else if let Some(r) = case["replace"].as_str() {
+            members[part.member].1 = r.as_bytes().to_vec();
+            desc = format!("part {} replaced by `{}`", part_name, r);
+            nontrivial = true;
+        } else if case["pair"].is_array() {
+            let m1 = Mutation::from_json(&case["pair"][0]).ok_or("bad mutation")?;
+            let m2 = Mutation::from_json(&case["pair"][1]).ok_or("bad mutation")?;
+            match xmlmut::apply_pair(&m1, &m2, orig, &part.layout) {
+                Some(b) => {
+                    nontrivial = well_formed(&b);
+                    members[part.member].1 = b;
+                    desc = format!(
+                        "{}: {} AND {}",
+                        part_name,
+                        m1.describe(orig, &part.layout),
+                        m2.describe(orig, &part.layout)
+                    );
+                }
+                None => {
+                    // overlapping edits: the second mutation is inside what the first removed; run the first alone
+                    let b = m1.apply(orig, &part.layout).ok_or("mutation out of range")?;
+                    nontrivial = false;
+                    members[part.member].1 = b;
+                    desc = format!("{}: {} (second edit overlaps)", part_name, m1.describe(orig, &part.layout));
+                }
+            }
+        } else {
+            let m = Mutation::from_json(&case["mut"]).ok_or("bad mutation")?;
+            let b = m.apply(orig, &part.layout).ok_or("mutation out of range")?;
+            nontrivial = &b != orig && well_formed(&b);
+            members[part.member].1 = b;
+            desc = format!("{}: {}", part_name, m.describe(orig, &part.layout));
+        }
+        Ok((crate::xlsxutil::pack(&members), format!("{} [{}]", desc, name), nontrivial))
+    }
+}
+
+fn well_formed(b: &[u8]) -> bool {
+    match std::str::from_utf8(b) {
+        Ok(s) => roxmltree::Document::parse(s).is_ok(),
+        Err(_) => false,
+    }
+}
+
+impl Job for C25Job {
+    fn n_cases(&self) -> usize {
+        self.total
+    }
+    fn case_json(&self, idx: usize) -> Value {
+        let (seg, k) = match self.locate(idx) {
+            Some(x) => x,
+            None => return Value::Null,
+        };
+        let pkg = &self.pkgs[seg.pkg];
+        match seg.kind {
+            SegKind::Part(pk) => {
+                let part = &pkg.parts[pk];
+                let pname = &pkg.members[part.member].0;
+                if k < part.muts.len() {
+                    json!({"pkg": pkg.name, "part": pname, "mut": part.muts[k].to_json()})
+                } else if k == part.muts.len() {
+                    json!({"pkg": pkg.name, "part": pname, "remove": true})
+                } else {
+                    json!({"pkg": pkg.name, "part": pname, "replace": "<a/>"})
+                }
+            }
+            SegKind::ZipTruncate => json!({"pkg": pkg.name, "zip-truncate": k * 64}),
+            SegKind::ZipDirByte => {
+                json!({"pkg": pkg.name, "zip-byte": {"offset": pkg.cd_start + k / 2, "value": if k % 2 == 0 { 0 } else { 255 }}})
+            }
+            SegKind::Pairs(pk) => {
+                let part = &pkg.parts[pk];
+                let pname = &pkg.members[part.member].0;
+                let (i, j) = unrank_pair(part.pair_muts.len(), k);
+                json!({"pkg": pkg.name, "part": pname,
+                    "pair": [part.muts[part.pair_muts[i]].to_json(), part.muts[part.pair_muts[j]].to_json()]})
+            }
+        }
+    }
+    fn run_case(&self, case: &Value, stage: &mut dyn FnMut(&str)) -> CaseOut {
+        let mut out = CaseOut::default();
+        match self.build(case) {
+            Err(e) => out.ds.push(Disagreement {
+                sig: "machinery: cannot build case".into(),
+                case: case.clone(),
+                detail: e,
+            }),
+            Ok((bytes, desc, nontrivial)) => {
+                let (ds, outcome, calls) = import_oracle(&bytes, case, &desc, stage);
+                out.ds = ds;
+                out.nontrivial = nontrivial;
+                out.outcome = fnv64(&outcome);
+                out.calls = calls;
+            }
+        }
+        out
+    }
+}
+
+pub fn job(tier: Tier) -> Box<dyn Job> {
+    Box::new(C25Job::new(tier))
+}
+
+pub fn run(run: &mut Run) {
+    let job = C25Job::new(run.tier);
+    for e in &job.load_errors {
+        run.machinery_errors.push(e.clone());
+    }
+    let n = job.n_cases();
+    // the unmutated packages must import cleanly, otherwise the seeds are not seeds
+    for p in &job.pkgs {
+        let mut st = |_: &str| {};
+        let case = json!({"pkg": p.name, "unmutated": true});
+        let (ds, outcome, _) = import_oracle(&p.raw, &case, "unmutated seed package", &mut st);
+        if !ds.is_empty() || !outcome.starts_with("ok sheets") {
+            run.machinery_errors
+                .push(format!("seed package {} does not import cleanly: {}", p.name, outcome));
+        }
+    }
+    // batch size does not depend on the machine, so that the grouping of cases into threads is reproducible
+    let batch = if run.tier.thorough() { 16_384 } else { 4_096 };
+    let sum = isolate::run_isolated(
+        run,
+        "C25",
+        n,
+        &|i| job.case_json(i),
+        &isolate::Opts {
+            watchdog_s: WATCHDOG_S,
+            batch,
+            wall_cap_s: if run.tier.thorough() { 900.0 } else { 120.0 },
+        },
+    );
+    run.evaluations = sum.cases_run;
+    run.states = sum.cases_run;
+    run.traces = sum.cases_run;
+    run.transitions = sum.calls;
+    run.nontrivial = sum.nontrivial;
+    run.distinct_outcomes = sum.outcomes.len() as u64;
+    run.exhaustive = run.cap_hit.is_none();
+    let mut b = job.stats();
+    b["cases"] = json!(n);
+    b["attribute_values"] = json!(xmlmut::ATTR_VALUES);
+    b["text_values"] = json!(xmlmut::TEXT_VALUES);
+    b["zip"] = json!("archive truncated at every 64th byte; every byte of the central directory and end record set to 0x00 and 0xFF");
+    if run.tier.thorough() {
+        b["pairs"] = json!({"packages": PAIR_PKGS, "parts": PAIR_PARTS,
+            "operators": "del-elem, del-children, dup-elem, del-attr, set-attr in {\"\", \"-1\", \"x\"}; both located on the original text, overlapping pairs reduced to the first"});
+    }
+    b["isolation"] = json!({"worker_processes": sum.worker_processes, "deaths": sum.deaths, "hangs": sum.hangs, "transient_losses": sum.transient,
+        "watchdog_s": WATCHDOG_S, "rlimit_as_gib": 4, "stack_mib": 8});
+    run.bound = b;
+    run.rule = "every single structural mutation of every XML part of every seed package (delete element / all children / attribute, duplicate element, 12 attribute values, 4 text values, truncation at every tag boundary, part removed, part replaced), zip truncation at every 64th byte and every central-directory byte zeroed / set to 0xFF; each mutated package goes through load_from_xlsx_bytes and, on Ok, Model::from_workbook and evaluate. non-trivial = the mutated part differs from the original and is still well-formed XML (so the damage reaches the importer's own logic), or the damaged archive still opens".into();
+    for i in [0, n / 2, n.saturating_sub(1)] {
+        if n > 0 {
+            run.sample(job.case_json(i));
+        }
+    }
+    run.assume("seed packages: exports of the three seed workbooks and three feature workbooks, plus the listed .xlsx files read from /repo/xlsx/tests at run time");
+    run.assume("byte strings that are not within one mutation (thorough: two inside three named parts) of a seed package are not covered");
+    run.assume("termination = each case finishes within the per-case watchdog in a worker with RLIMIT_AS 4 GiB and an 8 MiB stack");
+}
+
+pub fn replay(case: &Value) -> Vec<Disagreement> {
+    isolate::replay_isolated("C25", case, WATCHDOG_S)
 }
